@@ -50,3 +50,50 @@ Proof.
   { unfold ceb_inR, ts_inR; cbn [c_as_of c_void_after c_bound c_drift ts_sec ts_nsec]. repeat split; try (apply Z.leb_le; reflexivity); try (apply Z.ltb_lt; reflexivity); try reflexivity; try (intro; discriminate). }
   rewrite (status_is_decay _ real mono el lt st HR Hr Hm HC). reflexivity.
 Qed.
+
+(* ---------------------------------------------------------------------------------------------
+   The chain from the chrony histories to the record a client computes its interval from
+   (World/Pipeline.v).  [ls]: the daemon instances that ever ran (rate and message history of each,
+   Updater.lives); the k-th write() call publishes the k-th record they produce; the segment is the
+   release/acquire machine with any schedule of accesses, deaths, restarts and clients.  Every record
+   a client obtains is the empty record or spec_rec d h for one instance and one prefix h of its
+   history; and whenever a client derives a trusted status from it, that history contains a
+   synchronised measurement - the premise of C01_containment, whose remaining hypotheses are the
+   assumptions about the world (chronyd's figures valid, drift within the configured rate). *)
+From CB Require Import Machine SeqlockRA Pipeline.
+Open Scope Z_scope.
+
+Theorem C01_every_snapshot_is_a_specified_record : forall ls cs,
+  lives ls = Some cs -> (forall d ms, In (d, ms) ls -> 0 <= d < 4294967296) ->
+  forall c ts m o, c_cells c = 7%nat -> safe_cfg c = true -> Forall real_token ts ->
+  @m_run (recs_fun cs) (m_init c) ts = (m, o) -> Z.of_nat (m_nrec m) < 32767 ->
+  forall j ret rec, In (ORet j ret rec) o -> ret <> RetErr ->
+    cells_ceb rec = empty_ceb \/ from_history ls (cells_ceb rec).
+Proof. exact snapshot_is_a_specified_record. Qed.
+
+Theorem C01_trusted_interval_has_a_measured_history : forall ls cs,
+  lives ls = Some cs -> (forall d ms, In (d, ms) ls -> 0 <= d < 4294967296) ->
+  forall c ts m o, c_cells c = 7%nat -> safe_cfg c = true -> Forall real_token ts ->
+  @m_run (recs_fun cs) (m_init c) ts = (m, o) -> Z.of_nat (m_nrec m) < 32767 ->
+  forall j ret rec real mono el lt st, In (ORet j ret rec) o -> ret <> RetErr ->
+  ts_inR real -> ts_inR mono ->
+  compute_bound_at (cells_ceb rec) real mono = Ok (el, lt, st) -> st <> Unknown ->
+  exists d h b a, cells_ceb rec = spec_rec d h /\ last_sync h = Some (b, a) /\ 0 <= d < 4294967296 /\
+                  exists pre ms post (k : nat), ls = pre ++ (d, ms) :: post /\ (k < length ms)%nat /\ h = rev (firstn (Datatypes.S k) ms).
+Proof.
+  intros ls cs HL HR c ts m o H7 Hs Hts R Hn j ret rec real mono el lt st Hin Hne Hr Hm HC Hst.
+  destruct (snapshot_is_a_specified_record ls cs HL HR c ts m o H7 Hs Hts R Hn j ret rec Hin Hne) as [E|E].
+  - exfalso. apply Hst. rewrite E in HC. exact (C01_empty_record_no_trust real mono el lt st Hr Hm HC).
+  - destruct E as (pre & d & ms & post & k & El & Hk & E).
+    assert (Hd : 0 <= d < 4294967296).
+    { apply (HR d ms). rewrite El. apply in_or_app. right. left. reflexivity. }
+    exists d, (rev (firstn (Datatypes.S k) ms)).
+    destruct (last_sync (rev (firstn (Datatypes.S k) ms))) as [[b a]|] eqn:LS.
+    + exists b, a. split; [exact E|]. split; [reflexivity|]. split; [exact Hd|].
+      exists pre, ms, post, k. repeat split; auto.
+    + exfalso. apply Hst. rewrite E in HC.
+      apply (C01_no_measurement_no_trust d (rev (firstn (Datatypes.S k) ms)) real mono el lt st LS); auto.
+      unfold spec_rec. rewrite LS. unfold ceb_inR, ts_inR.
+      cbn [c_as_of c_void_after c_bound c_drift ts_sec ts_nsec].
+      repeat split; try (apply Z.leb_le; reflexivity); try (apply Z.ltb_lt; reflexivity); try reflexivity; try (intro; discriminate); lia.
+Qed.
